@@ -21,8 +21,9 @@ def _strip_intents(x):
 
 
 class Layout:
-    def __init__(self, root):
+    def __init__(self, root, exe="vpbp"):
         self.root = root
+        self.exe = exe          # "vpbp": main calls libcnb_runtime itself; "vpbpm": main is the one buildpack_main! writes
         self.bp = os.path.join(root, "bp")
         self.app = os.path.join(root, "app")
         self.layers = os.path.join(root, "layers")
@@ -38,7 +39,7 @@ class Layout:
         for n in names:
             p = os.path.join(self.bp, "bin", n)
             if not os.path.lexists(p):
-                os.symlink(os.path.join(vp.BIN, "vpbp"), p)
+                os.symlink(os.path.join(vp.BIN, self.exe), p)
 
     def reset_outputs(self):
         for p in (self.marker, self.dump):
